@@ -3664,13 +3664,34 @@ impl Context {
             merge_block: 0,
         });
 
+        // Only one arm runs, and the arms' state cells are laid out one after another: generate
+        // every arm from the state cursor reached at the match, moved past the cells of the arms
+        // listed before it, and let every arm end behind the cells of all arms.
+        let (match_push_sum, match_pending) = {
+            let data = self.get_ctxdata();
+            (data.push_sum, data.next_state_offset.unwrap_or(0))
+        };
+        let mut arms_state_size: u64 = 0;
+        // (last block of the arm, cursor reached at its end)
+        let mut arm_ends: Vec<(usize, u64)> = vec![];
+
         // Generate blocks for each literal case
         let (case_blocks, case_results, case_states): (Vec<_>, Vec<_>, Vec<_>) = literal_arms
             .iter()
             .map(|(arm, lit_val)| {
                 self.add_new_basicblock();
                 let block_idx = self.get_ctxdata().current_bb as u64;
+                {
+                    let start_offset = match_pending + arms_state_size;
+                    let data = self.get_ctxdata();
+                    data.push_sum = match_push_sum;
+                    data.next_state_offset = (start_offset > 0).then_some(start_offset);
+                }
                 let (result_val, _, arm_states) = self.eval_expr(arm.body);
+                // emit the arm's pending cursor move inside the arm
+                self.consume_and_insert_pushoffset();
+                arms_state_size += arm_states.iter().map(|s| s.total_size()).sum::<u64>();
+                arm_ends.push((self.get_ctxdata().current_bb, self.get_ctxdata().push_sum));
                 ((*lit_val, block_idx), result_val, arm_states)
             })
             .fold(
@@ -3691,7 +3712,16 @@ impl Context {
             // Wildcard pattern - just evaluate the body
             self.add_new_basicblock();
             let block_idx = self.get_ctxdata().current_bb as u64;
+            {
+                let start_offset = match_pending + arms_state_size;
+                let data = self.get_ctxdata();
+                data.push_sum = match_push_sum;
+                data.next_state_offset = (start_offset > 0).then_some(start_offset);
+            }
             let (result_val, _, arm_states) = self.eval_expr(arm.body);
+            self.consume_and_insert_pushoffset();
+            arms_state_size += arm_states.iter().map(|s| s.total_size()).sum::<u64>();
+            arm_ends.push((self.get_ctxdata().current_bb, self.get_ctxdata().push_sum));
             all_states.extend(arm_states);
             case_results.push(result_val);
             Some(block_idx)
@@ -3699,6 +3729,19 @@ impl Context {
             // Exhaustive match - no default block needed
             None
         };
+
+        // Every arm ends behind the cells of all arms: pad the arms that stopped earlier
+        let common_sum = match_push_sum + match_pending + arms_state_size;
+        for (end_bidx, end_sum) in arm_ends {
+            if end_sum < common_sum {
+                let block = self.get_current_fn().body.get_mut(end_bidx).unwrap();
+                block.0.push((
+                    Arc::new(Value::None),
+                    Instruction::PushStateOffset(common_sum - end_sum),
+                ));
+            }
+        }
+        self.get_ctxdata().push_sum = common_sum;
 
         // Generate merge block with PhiSwitch
         self.add_new_basicblock();
